@@ -68,6 +68,12 @@ func (c *podEventHandler) OnUpdate(oldObj, newObj interface{}) {
 	if !ok {
 		return
 	}
+	if oldPod.UID != pod.UID {
+		// a pod deleted and re-created under the same name while the watch was down arrives as an update
+		c.deletePod(oldPod)
+		c.updatePod(nil, pod)
+		return
+	}
 	c.updatePod(oldPod, pod)
 }
 
